@@ -85,7 +85,7 @@ func raceAux(prop string) func(tier string) ([]*mc.VRec, map[string]any, []strin
 		if tier == "thorough" {
 			iters = 3000
 		}
-		dir := filepath.Join(mc.VerifDir, ".build", "run")
+		dir := filepath.Join(mc.OutDir, ".build", "run")
 		os.MkdirAll(dir, 0o755)
 		logBase := filepath.Join(dir, fmt.Sprintf("race.%s.%d", prop, os.Getpid()))
 		var viols []*mc.VRec
